@@ -50,6 +50,7 @@ type fixtureLog struct {
 	heads  []*treeHead
 	store  map[string][]byte // served (content-decoded) objects of the final state
 	issuer [][]byte
+	nPending int
 }
 
 var fakeClock int64 = 1_700_000_000_000
@@ -92,8 +93,11 @@ func newFixtureLog(sid, name string, keyID int, seed int64, dir string) (*fixtur
 
 func (fl *fixtureLog) newPending() *ctlog.PendingLogEntry {
 	e := &ctlog.PendingLogEntry{}
-	e.Certificate = make([]byte, 2+fl.r.Intn(9))
+	// unique (the sequencer de-duplicates by certificate): a counter followed by random bytes
+	fl.nPending++
+	e.Certificate = make([]byte, 4+fl.r.Intn(7))
 	fl.r.Read(e.Certificate)
+	e.Certificate[0], e.Certificate[1], e.Certificate[2] = byte(fl.nPending>>16), byte(fl.nPending>>8), byte(fl.nPending)
 	if fl.r.Intn(10) < 3 {
 		e.IsPrecert = true
 		fl.r.Read(e.IssuerKeyHash[:])
